@@ -13,7 +13,8 @@ def run(ctx):
                 "allocated node has been freed exactly once); M2: user-managed memory through the registry allocator; histories with rejected "
                 "Puts, same-epoch and cross-epoch deletes by contending writers, pinned snapshots closed late, readers, and instances populated by "
                 "LoadFromDisk (store -> restore -> more operations -> Close); every malloc/free is an event and TLC (MemAPI.tla) requires at Close: "
-                "allocated = freed, no block freed twice, no unknown pointer freed")
+                "allocated = freed, no block freed twice, no unknown pointer freed; plus LoadFromDisk of damaged backups (every file removed / truncated / "
+                "altered) followed by Close: the allocator must be empty whether the restore succeeded or failed (Trace_Backup.tla)")
     nwriters.model_check(ctx, T)
     nwriters.conformance(ctx, T, 71)
     plan = [("contended writers", 300, False), ("large", 80, True)]
@@ -34,5 +35,19 @@ def run(ctx):
     with open(tr) as f:
         evs = [json.loads(l) for l in f if '"Closed"' in l][:3]
     ctx.add_sample({"kind": "allocator totals at Close", "events": evs})
+    # instances on which LoadFromDisk FAILED (damaged backups): Close must still release everything the restore allocated
+    from checks import backup
+    import shutil
+    o = dict(conc=2, kv=True, mm=True)
+    base = os.path.join(ctx.wd, "c07base")
+    g = backup.gen(ctx, base, vlib.seed() * 100 + 77, 24, backup.opt_list(o), [])
+    if g["ret"] != "ok":
+        raise Infra("bk-gen: StoreToDisk failed without faults: " + g["ret"])
+    dextra = ["-multi", "40" if T else "12", "-seed", str(vlib.seed())] + ([] if T else ["-sample", "6", "-phase", str(vlib.seed() % 6)])
+    evs = backup.damage_run(ctx, base, g, o, min(16, vlib.NCPU), dextra, what="c07dmg")
+    evs.sort(key=lambda e: e["case"])
+    ctx.extra["failed_restores_then_close"] = sum(1 for e in evs if e["outcome"] == "err")
+    backup.judge(ctx, [backup.gen_event(g, {"cfg": o})] + evs, "Close after LoadFromDisk of damaged backups (allocator checked after Close)", len(evs))
+    shutil.rmtree(base, ignore_errors=True)
     ctx.assumptions += ["Close is called after every snapshot and iterator has been closed (the API's contract)"]
     return None
